@@ -1,7 +1,7 @@
 INIT Init
 NEXT Next
 CONSTANT Mode = "model"
-CONSTANT Depth = 2
+CONSTANT Depth = 1
 CONSTANT LenW = 4
 CONSTANT HashW = 2
 CONSTANT G1W = 2
